@@ -204,6 +204,15 @@ def ActPerBatchElement [Inhabited α] : Prop :=
 
 end TorchPrims
 
+/-- the batched operation that, BY DEFINITION, applies `single` to every batch element (with broadcasting of the batch
+dimensions) — what the assumption says torch's primitives are -/
+def liftB [Inhabited α] (ka kb : Nat) (evOut : RShape → RShape → RShape) (single : T α → T α → T α) (a b : T α) : Option (T α) :=
+  (bcastR (a.shape.drop ka) (b.shape.drop kb)).map fun bs =>
+    let eo := evOut (a.shape.take ka) (b.shape.take kb)
+    ⟨eo ++ bs, fun full =>
+      (single (elem ka a (bidxR (a.shape.drop ka) (full.drop eo.length)))
+              (elem kb b (bidxR (b.shape.drop kb) (full.drop eo.length)))).get (full.take eo.length)⟩
+
 /-- the scalar operations of the pipeline -/
 structure ScalarOps (α : Type) where
   div : α → α → α
